@@ -107,6 +107,16 @@ grab(B, r"let pair_selector = self\.cyclic_size \* \(\(delta > self\.cyclic_pos\
 grab(B, r"let mut ptr0 = sh_left\(self\.cyclic_pos\) \+ 1; let mut ptr1 = sh_left\(self\.cyclic_pos\);", 2, None, "ptr0 / ptr1")
 grab(B, r"let mut len = len0\.min\(len1\);", 2, None, "len = min(len0, len1)")
 
+# the 31-bit renormalisation of the match finders' positions (Model/Hc4Renorm.lean, Model/Bt4Renorm.lean)
+nh = {}
+nh["maxPos"] = grab(C, r"if avail != 0 \{ self\.lz_pos \+= 1; if self\.lz_pos == (0x[0-9A-Fa-f_]+) \{", 1, num, "hc4 normalisation threshold")
+nh["offBase"] = grab(C, r"let norm_offset = (0x[0-9A-Fa-f_]+) - self\.cyclic_size; self\.hash\.normalize\(norm_offset\); LZEncoder::normalize\(&mut self\.chain, norm_offset\); self\.lz_pos = self\.lz_pos\.wrapping_sub\(norm_offset\); \} self\.cyclic_pos \+= 1;", 1, num, "hc4 normalisation offset and calls")
+nb = {}
+nb["maxPos"] = grab(B, r"const MAX_POS: i32 = (0x[0-9A-Fa-f_]+);", 1, num, "bt4 MAX_POS")
+nb["offBase"] = nb["maxPos"] if grab(B, r"if avail != 0 \{ self\.lz_pos \+= 1; if self\.lz_pos == MAX_POS \{ let normalization_offset = MAX_POS - self\.cyclic_size; self\.hash\.normalize\(normalization_offset\); LZEncoder::normalize\(&mut self\.tree, normalization_offset\); self\.lz_pos -= normalization_offset; \} self\.cyclic_pos \+= 1;", 1, None, "bt4 normalisation branch") else None
+grab(H, r"pub\(crate\) fn normalize\(&mut self, offset: i32\) \{ LZEncoder::normalize\(&mut self\.hash2_table, offset\); LZEncoder::normalize\(&mut self\.hash3_table, offset\); LZEncoder::normalize\(&mut self\.hash4_table, offset\); \}", 1, None, "Hash234::normalize covers the three tables")
+grab("src/lz/lz_encoder.rs", r"fn normalize_scalar\(positions: &mut \[i32\], norm_offset: i32\) \{ positions \.iter_mut\(\) \.for_each\(\|p\| \*p = \(\*p\)\.max\(norm_offset\) - norm_offset\); \}", 1, None, "normalize_scalar = max(p, off) - off")
+
 F = "src/enc/encoder_fast.rs"
 fp = {}
 fp["matchLenMin"] = grab("src/lib.rs", r"const MATCH_LEN_MIN: usize = ([0-9]+);", 1, num, "MATCH_LEN_MIN")
@@ -139,11 +149,12 @@ def inst(d, zero_bools=()):
     return ", ".join(parts)
 
 text = "/- GENERATED by tools/extract_mf.py from /repo's sources on every run. Do not edit. -/\n"
-text += "import LzmaVerif.Model.Hc4\nimport LzmaVerif.Model.Bt4\nimport LzmaVerif.Model.EncFast\nnamespace LzmaVerif.MfGen\n\n"
+text += "import LzmaVerif.Model.Hc4\nimport LzmaVerif.Model.Bt4\nimport LzmaVerif.Model.EncFast\nimport LzmaVerif.Model.Bt4Renorm\nnamespace LzmaVerif.MfGen\n\n"
 text += f"/-- constants of hash234.rs as they are in the source now (0 = extraction failed) -/\ndef hashParams : Mf.HashParams := {{ {inst(hp)} }}\n\n"
 text += f"/-- constants and comparison shapes of hc4.rs -/\ndef hc4Params : Mf.Hc4.Hc4Params := {{ {inst(hc)}, hash := hashParams }}\n\n"
 text += f"/-- constants and comparison shapes of bt4.rs -/\ndef bt4Params : Mf.Bt4.Bt4Params := {{ {inst(bt)}, hash := hashParams }}\n\n"
 text += f"/-- constants of encoder_fast.rs / lib.rs used by the fast-mode parser model -/\ndef fastParams : EncFast.FastParams := {{ {inst(fp)} }}\n\n"
+text += f"/-- where hc4.rs / bt4.rs renormalise their 31-bit positions -/\ndef hc4Norm : Mf.NormParams := {{ {inst(nh)} }}\ndef bt4Norm : Mf.NormParams := {{ {inst(nb)} }}\n\n"
 text += f"/-- number of extraction errors of this run -/\ndef extractionErrors : Nat := {len(errs)}\n\nend LzmaVerif.MfGen\n"
 if "--dry" in sys.argv:
     print(text)
@@ -153,5 +164,5 @@ else:
         open(OUT, "w").write(text)
 for e in errs:
     print("mf extraction error:", e, file=sys.stderr)
-print(f"match-finder parameters: hash={hp} hc4={hc} bt4={bt} fast={fp} errors={len(errs)}")
+print(f"match-finder parameters: hash={hp} hc4={hc} bt4={bt} fast={fp} norm_hc4={nh} norm_bt4={nb} errors={len(errs)}")
 sys.exit(3 if errs else 0)
